@@ -1256,6 +1256,25 @@ impl Runner {
                         };
                     }
                     self.dump_state(k, &dev, cur_l2, cur_rb);
+                    // C18: whenever need_flush_meta() is false (and this op was not itself a
+                    // flush, which is swept anyway) the file alone must give the device content
+                    if !flushed && !self.quiet && !dev.need_flush_meta() && matches!(op, Op::Write { .. } | Op::Discard { .. } | Op::Read { .. }) {
+                        let copies: Vec<SimFile> = self.files.iter().map(|f| SimFile::new("copy", f.snapshot())).collect();
+                        let mut p = params.clone();
+                        p.set_read_only(true);
+                        let r = catch_unwind(AssertUnwindSafe(|| {
+                            block_on(async {
+                                let d2 = open_dev(&copies, &p).await?;
+                                sweep(&d2, self.case.size, 1 << p.get_bs_bits()).await
+                            })
+                        }));
+                        let txt = match r {
+                            Ok(Ok(s)) => s,
+                            Ok(Err(_)) => "err".into(),
+                            Err(_) => "panic".into(),
+                        };
+                        self.emit(k, format!("nfsweep {}", txt));
+                    }
                 }
             }
         }
